@@ -81,6 +81,61 @@ chk("C18", "exploration",
     "redo-log replay parsed and compared per target.", P_NOTE,
     "property-based testing: proptest round trip + Hypothesis end-to-end per-target sequence invariant", "DESIGN.md §4 C18", "P+S-lite")
 
+S_NOTE = ("Trusted: rv/sched.py (event FIFO, gates, /proc-based quiescence, SIGSTOP/SIGCONT coincidences, harness "
+          "jobserver pipes), the instrumented scripts, the kernel's fcntl/pipe semantics. Schedules are owned at the "
+          "granularity of script completions, token arrivals and invocation starts; interleavings inside one redo "
+          "process between two syscalls are only perturbed by load, not enumerated. A saved schedule can be flaky on "
+          "replay (oracles are invariants over all schedules, so this costs reproducibility, not soundness). A hang "
+          "verdict needs a zero-CPU proof; anything else over budget exits 2.")
+chk("C04", "fault_enumeration",
+    "Every combination of 14 script behaviours x 6 payload sizes x 2 prior states x 2 commands is executed (2 rounds "
+    "quick, 12 thorough, different payload bytes / log / exit code / directory) plus sampled extras; expectation table "
+    "from the statement, stat+bytes of the previous target, stray-file scan, a reader thread and inotify for atomicity.",
+    "Trusted: inotify, the sampling reader (millions of reads per run), dash. Kill points inside the script are "
+    "'after half the payload'; kills of redo itself are C10's subject.",
+    "exhaustive fault enumeration (cross product) + Hypothesis sampling, table/stat/inotify oracles", "DESIGN.md §4 C04", "K-lite")
+chk("C06", "exploration",
+    "2-4 overlapping top-level invocations over gated scripts, start times and completion order decided by the "
+    "harness, failing scripts and group signals; no script start for a target may arrive while another live "
+    "execution of it is open.", S_NOTE,
+    "schedule fuzzing: Hypothesis-generated scenarios + harness-owned schedules, trace interval invariant", "DESIGN.md §4 C06", "S")
+chk("C07", "exploration",
+    "One parallel invocation under a generated schedule vs the model's serial evaluation and a real serial build in a "
+    "sibling directory: at most one start per target, same exit status, executed set, bytes, Files flags and Deps "
+    "edges; follow-up build clean.", S_NOTE,
+    "schedule fuzzing + serial/parallel differential (model and real -j1 build)", "DESIGN.md §4 C07", "S")
+chk("C08", "exploration",
+    "Own jobserver (-j1..8) and harness-as-parent-jobserver (K tokens in the pipe, H held back and given/stolen at "
+    "decision points, low/high fd numbers), failing / error-exit variants, second contending invocation, coincidence "
+    "schedules: work-section overlap <= limit (+1 with log capture), no token-count error, FIONREAD accounting.", S_NOTE,
+    "schedule fuzzing with harness-played jobserver, token-accounting invariants", "DESIGN.md §4 C08", "S")
+chk("C09", "exploration",
+    "1-3 invocations, -j1..8, shuffle, inherited jobserver, duplicate spellings; which gated scripts finish together "
+    "with each other and/or a token arrival inside one wake-up of their owner is decided by the harness "
+    "(SIGSTOP/SIGCONT). Every invocation must end with exit 0 and without panic/EDEADLK/'JobServer deadlock'; hangs "
+    "need a no-progress proof.", S_NOTE,
+    "schedule fuzzing with coincidence injection, crash/hang oracle", "DESIGN.md §4 C09", "S")
+chk("C10", "fault_enumeration",
+    "Per generated project and state the state-changing libc calls of the redo binary are numbered by an LD_PRELOAD "
+    "shim and a kill (caller or whole group) is injected immediately before each one (all points for 2 projects x 2 "
+    "states and every 3rd elsewhere in quick; all points of 40 projects in thorough); recovery, further edit, "
+    "rebuild and redo-ood are checked against from-scratch contents. Failures are classified by the semantic window "
+    "read off the post-crash state (W1/W2/W3).",
+    "Trusted: shim/verifshim.c (interposes rename/unlink/open*/creat/write/pwrite/writev/ftruncate/mkdir/link/symlink), "
+    "deterministic call numbering at -j1 between counting run and crash runs, SIGKILL as the crash model (no power loss).",
+    "fault injection: exhaustive crash-point enumeration via LD_PRELOAD, recovery vs from-scratch oracle", "DESIGN.md §4 C10", "K")
+chk("C12", "exploration",
+    "Generated graphs with a cycle of length 1-5, prefixes, siblings and second entries, every kind of entry set, "
+    "-j1..4; must terminate non-zero with the cycle identified; hang only with proof. The known hanging shape (D8) is "
+    "generated in ~8% of its natural share and counted as excluded otherwise.", S_NOTE,
+    "schedule fuzzing over generated cyclic graphs, termination + status oracle", "DESIGN.md §4 C12", "S")
+chk("C16", "exploration",
+    "2-10 commands (builds and queries) started within 0-20 ms on a fresh or pre-built project; exit statuses, SQLite "
+    "error strings, integrity_check and presence of every Files/Deps row of every script that ran.",
+    "Trusted: kernel scheduling noise as the source of transaction interleavings (not enumerated); sqlite3 module for "
+    "the read-only inspection after all processes are gone.",
+    "concurrency fuzzing: generated command mixes started together, error-string + record-presence oracle", "DESIGN.md §4 C16", "S-free")
+
 manifest = {
     "version": 1,
     "setup_cmd": "./check --setup",
@@ -94,6 +149,10 @@ manifest = {
     "engines": [
         {"name": "H", "path": "rv/hist.py", "serves_properties": ["C01", "C02", "C03", "C05", "C11", "C13", "C14", "C15", "C17"],
          "kind_free_text": "Hypothesis-generated serial histories run against the real redo binary and the reference model rv/model.py"},
+        {"name": "S", "path": "rv/sched.py", "serves_properties": ["C06", "C07", "C08", "C09", "C12", "C16"],
+         "kind_free_text": "harness-owned schedules: gated scripts, event FIFO, quiescence via /proc, SIGSTOP/SIGCONT coincidences, harness as parent jobserver"},
+        {"name": "K", "path": "shim/verifshim.c + rv/props/c10.py, rv/props/c04.py", "serves_properties": ["C04", "C10"],
+         "kind_free_text": "fault enumeration: LD_PRELOAD crash points (kill caller/group before the n-th state-changing call), script failure-mode cross product"},
         {"name": "P", "path": "inproc/", "serves_properties": ["C13", "C15", "C18"],
          "kind_free_text": "Rust crate linking /repo's library: proptest TestRunner (seeded), exhaustive enumeration, independent reference implementations"},
     ],
